@@ -113,3 +113,27 @@ package logic
 //@ func (*Group).writev2RtmpSubSessions
 //@   props C01
 //@ end
+
+// C14: simple auth. check admits only a lower-cased lal_secret equal to the override secret (when one is
+// configured) or to md5(key+streamName); the On* callbacks consult check exactly for the enabled protocol/direction.
+//@ func (*SimpleAuthCtx).check
+//@   props C14
+//@   opaque
+//@   returns [C14.simple.accept] result == nil ==> (len(s.config.DangerousLalSecret) != 0 && v == s.config.DangerousLalSecret) || (defined(se) && v == se)
+//@   returns [C14.simple.nonempty] result == nil ==> err == nil && len(v) != 0
+//@ end
+//@ func (*SimpleAuthCtx).OnPubStart
+//@   props C14
+//@   ensures [C14.simple.pub.on] (s.config.PubRtmpEnable && info.Protocol == "RTMP") || (s.config.PubRtspEnable && info.Protocol == "RTSP") ==> called(check) && result == callresult(check)
+//@   ensures [C14.simple.pub.off] !(s.config.PubRtmpEnable && info.Protocol == "RTMP") && !(s.config.PubRtspEnable && info.Protocol == "RTSP") ==> result == nil
+//@ end
+//@ func (*SimpleAuthCtx).OnSubStart
+//@   props C14
+//@   ensures [C14.simple.sub.on] (s.config.SubRtmpEnable && info.Protocol == "RTMP") || (s.config.SubHttpflvEnable && info.Protocol == "FLV") || (s.config.SubHttptsEnable && info.Protocol == "TS") || (s.config.SubRtspEnable && info.Protocol == "RTSP") ==> called(check) && result == callresult(check)
+//@   ensures [C14.simple.sub.off] !(s.config.SubRtmpEnable && info.Protocol == "RTMP") && !(s.config.SubHttpflvEnable && info.Protocol == "FLV") && !(s.config.SubHttptsEnable && info.Protocol == "TS") && !(s.config.SubRtspEnable && info.Protocol == "RTSP") ==> result == nil
+//@ end
+//@ func (*SimpleAuthCtx).OnHls
+//@   props C14
+//@   ensures [C14.simple.hls.on] s.config.HlsM3u8Enable ==> called(check) && result == callresult(check)
+//@   ensures [C14.simple.hls.off] !s.config.HlsM3u8Enable ==> result == nil
+//@ end
